@@ -63,6 +63,10 @@ func (c *FileListChangesFileHash) UnmarshalControl(data string) error {
 	return nil
 }
 
+func (c FileListChangesFileHash) MarshalControl() (string, error) {
+	return fmt.Sprintf("%s %d %s %s %s", c.Hash, c.Size, c.Component, c.Priority, c.Filename), nil
+}
+
 // }}}
 
 // The Changes struct is the default encapsulation of the Debian .changes
